@@ -76,7 +76,7 @@ def run_graph(g):
     p = os.path.join(d, 'edges.txt')
     open(p, 'w').write(t)
     r = simrun(exe, g['n'], [p], ppn=g['ppn'], seed=g['seed'], policy=g['policy'], wall=60, spin=400000,
-               env={'YGM_COMM_ROUTING': g['routing'], 'YGM_COMM_BUFFER_SIZE_KB': g['bufkb'], 'YGM_COMM_IRECV_SIZE_KB': 4096})
+               env={'YGM_COMM_ROUTING': g['routing'], 'YGM_COMM_BUFFER_SIZE_KB': g['bufkb'], 'YGM_COMM_IRECV_SIZE_KB': 4096, 'VERIF_DSTRACE': 1})
     out = {'verdict': r['verdict'], 'detail': r['detail'], 'lines': r['out'], 'cmd': r['cmd']}
     shutil.rmtree(d, ignore_errors=True)
     json.dump(out, open(cache, 'w'))
@@ -215,18 +215,22 @@ def run(tier, seed, replay=None):
             f, st = oracle(g, r)
             fails += f
             stats.append(st)
-        return gs, fails, stats
+        from . import dstrace
+        tr = dstrace.check(gs, rs, 'c17_%s_%d' % (tier, seed_))
+        fails += tr['failures']
+        return gs, fails, stats, tr
     def tie(res):
-        gs, fails, stats = explore(seed, 48 if tier == 'quick' else 800)
-        return {'ok': True, 'msg': None, 'failures': fails, 'validated': len(gs), 'evaluations': len(gs),
+        gs, fails, stats, tr = explore(seed, 48 if tier == 'quick' else 800)
+        return {'ok': tr['msg'] is None, 'msg': tr['msg'], 'failures': fails, 'validated': len(gs), 'evaluations': len(gs),
                 'nontrivial': sum(1 for s in stats if s.get('items', 0) >= 10),
                 'rule': 'generated union multigraphs (long chains, binary trees, cliques, stars, random, duplicates and self-loops, the same edge issued by several ranks), 1-3 epochs, both async_union and async_union_and_execute, on 1-8 ranks under adversarial simmpi schedules; non-trivial: at least 10 items',
                 'samples': [{'config': text_of(gs[0]).split('\n')[0], 'edges': gs[0]['edges'][:8]}],
-                'tie': 'D: after every epoch the raw parent structure of the real disjoint_set is read from every rank and must satisfy the invariants proved of the model (parents are items, (rank,item) increases towards the root hence acyclic) and coincide with the connected components of a sequential union-find; all_find / for_all / num_sets / size / merge callbacks are compared with it',
-                'extra': {'max_rank_seen': max([s.get('max_rank', 0) for s in stats] + [0]), 'edges_total': sum(len(g['edges']) for g in gs)}}
+                'tie': 'D: every visit of the walk protocol executed by the real container (entry before / after, arguments; hook ds_visit) is replayed against DisjointLocal.lexec by vm_compute, and per epoch the multiset of executed visits must equal the unions issued plus the visits the model sends (DisjointLocal.exec_lexec ties lexec to the guarded model the theorems are about); after every epoch the raw parent structure of the real disjoint_set is read from every rank and must satisfy the invariants proved of the model (parents are items, (rank,item) increases towards the root hence acyclic) and coincide with the connected components of a sequential union-find; all_find / for_all / num_sets / size / merge callbacks are compared with it',
+                'extra': {'model_replay': {'epochs_replayed_against_DisjointLocal': tr['validated'], 'visits': tr['visits'], 'by_kind': tr['kinds']},
+                          'max_rank_seen': max([s.get('max_rank', 0) for s in stats] + [0]), 'edges_total': sum(len(g['edges']) for g in gs)}}
     def search():
         return explore(seed + 17, 96)[1]
     return run_check('C17', tier, seed, 'Properties_C17.v', [], tie, search,
-                     trusted=['coq/DisjointSet.v is a hand-written model of the walk protocol of disjoint_set_impl.hpp; its invariants are checked on the real structure after every epoch',
-                              'connectivity at quiescence (completeness) and termination of the walk protocol are checked by the differential runs, not proved', 'simmpi; harness/disjoint.cpp'],
+                     trusted=['coq/DisjointSet.v is a hand-written model of the walk protocol of disjoint_set_impl.hpp, executed against every recorded visit of the real container (DisjointLocal.v) and checked through its invariants on the real structure after every epoch',
+                              'termination of the walk protocol (every delivery order reaches quiescence) and the spanning-forest property of the merge callbacks are checked by the differential runs, not proved', 'simmpi; harness/disjoint.cpp'],
                      assumptions=['items are totally ordered (operator<) and hashable', 'handlers are atomic and every visit executes exactly once (C01, C02, C08)'])
